@@ -632,4 +632,12 @@ val root_info : node list -> imm res list -> nat -> sx
 
 val run_parse : sx -> sx
 
+val node_of_sx : sx -> node option
+
+val nodes_of_sx : sx list -> node list option
+
+val level_info : imm res -> nat -> sx
+
+val run_hashes : sx -> sx
+
 val run : string -> sx -> sx
